@@ -534,7 +534,6 @@ func (x *Exec) step(fr *Frame, st *State, ins ssa.Instruction) {
 		c := Clo{Fn: ins.Fn.(*ssa.Function), GT: ins.Type()}
 		for _, b := range ins.Bindings {
 			c.Bind = append(c.Bind, x.val(fr, st, b))
-			x.escape(st, x.val(fr, st, b), true)
 		}
 		fr.vals[ins] = c
 	case *ssa.MakeInterface:
